@@ -15,3 +15,10 @@ C('C02', 'differential + byte-image monitor against gcc-built accessors; UBSan/A
 C('C03', 'range-model monitor over 12 separately implemented store paths, C-side recorder in a compiled helper module, before/after byte images',
   'Exploration: 47 integer types (standard, stdint, _Bool, 3 enums) x 12 store paths x boundary lattice up to 2**100 and random ints; accepted iff in range, exact read-back / value received by C, OverflowError and unchanged memory on rejection, error value for out-of-range callback results.',
   'Trusts the gcc-compiled recorder functions; type ranges from a table that C06 checks against the compiler.')
+
+C('C05', 'differential oracle: compiled C conversions (ctypes.c_float/struct) and C-side bit recorders; bit-exact images of valid x87 encodings for long double',
+  'Exploration: float/double/complex over random bit patterns, edges and float32 rounding boundaries through 10 store paths; long double over random valid 80-bit encodings through 8 copy paths; stored bits and bits received by C compared with the C conversion.',
+  'Trusts ctypes/struct double->float conversion and gcc; NaN payloads and long double padding not compared; invalid x87 encodings not generated.')
+C('C15', 'encode/decode unit model over generated strings; byte images of fixed arrays before/after assignment; ASan red zones decide over-long writes',
+  'Exploration: 6 character types x round-trip / string(maxlen) with embedded zeros on arrays and pointers / unpack(n) / short-string assignment through 4 paths with array lengths around the string length, over BMP, astral and lone-surrogate text and all byte values.',
+  'UTF-16 model assumes no high surrogate directly before a low one; explicit maxlen beyond an array is the caller\'s bound (not generated).')
